@@ -86,9 +86,16 @@ def home(k, cap):
 
 # ------------------------------------------------------------------ operation lines
 
+_hk_memo = {}
+
+
 def hk(k):
     """hash words of a key (as the C code hashes it: all `namesize` bytes)"""
-    return "%08x %s" % (murmur3_32(k), hashlib.md5(k).hexdigest())
+    if len(k) < 1000:
+        return "%08x %s" % (murmur3_32(k), hashlib.md5(k).hexdigest())
+    if k not in _hk_memo:
+        _hk_memo[k] = "%08x %s" % (murmur3_32(k), hashlib.md5(k).hexdigest())
+    return _hk_memo[k]
 
 
 def op_put(k, v):
@@ -115,6 +122,19 @@ def op_srm(k):
     return "srm %s %s" % (hexs(k), hk(k + b"\0"))
 
 
+def op_putstr(k, v):   # putstr: key k + NUL, value v + NUL
+    return "putstr %s %s %s" % (hexs(k), hexs(v), hk(k + b"\0"))
+
+
+def op_getstr(k):
+    return "getstr %s %s" % (hexs(k), hk(k + b"\0"))
+
+
+def op_inv(k):
+    """every documented-invalid call; k is the probe key of the one valid lookup with a NULL size pointer"""
+    return "inv %s %s" % (hexs(k), hk(k))
+
+
 def op_init(cap, slack=0):
     return "init %d" % (memsize(cap) + slack)
 
@@ -128,8 +148,51 @@ def op_key(op):
     w = op.split()
     if w[0] in ("put", "get", "rm"):
         return unhex(w[1])
-    if w[0] in ("sput", "sget", "srm"):
+    if w[0] in ("sput", "sget", "srm", "putstr", "getstr"):
         return unhex(w[1]) + b"\0"
+    return None
+
+
+INV_TOKENS = ["pbo:nn", "pbo:ns0", "pbo:dn", "pbo:ds0", "pbo:tbl", "put:nn", "put:dn", "put:ds0", "putstr:nn", "putstr:dn",
+              "gbo:nn", "gbo:ns0", "gbo:tbl", "get:nn", "getstr:nn", "gbo:nosize", "rbo:nn", "rbo:ns0", "rbo:tbl", "rm:nn",
+              "rmi:-1", "rmi:max", "next:obj", "next:idx", "next:tbl", "next:-1", "size:tbl", "size:noout", "clear:tbl",
+              "debug:tbl", "debug:out"]
+
+
+def inv_expected(probe_stored, num):
+    """the documented answer of every call of the `inv` probe (qhasharr.c's doc comments: EINVAL "Invalid
+    argument" for NULL / zero-size arguments and indexes outside the table, EIO for a NULL stream; a NULL
+    size pointer and NULL output pointers are allowed)"""
+    want = {t: "EINVAL" for t in INV_TOKENS}
+    want["gbo:nosize"] = "data" if probe_stored else "null:ENOENT"
+    want["size:noout"] = str(num)
+    want["debug:out"] = "EIO"
+    return "inv " + " ".join("%s=%s" % (t, want[t]) for t in INV_TOKENS)
+
+
+def ctor_expected(ms):
+    """qhasharr(memory, memsize) on a fresh region: 0 attaches (nothing written); a region too small for the
+    handle-sized minimum or for one slot is refused with EINVAL and nothing is written; otherwise every byte
+    is zeroed and maxslots = (memsize - header) / slotsize"""
+    if ms == 0:
+        return "ctor attach untouched g1"
+    cap = (ms - HDR) // SLOT if ms >= HDR else 0
+    if cap < 1 or ms <= HANDLE:
+        return "ctor null EINVAL untouched g1"
+    return "ctor ok %d 0 0 zero g1" % cap
+
+
+def judge_standalone(op, line):
+    """`ctor` / `memsize` lines (no image): None, or what is wrong"""
+    w = op.split()
+    if w[0] == "ctor":
+        want = ctor_expected(int(w[1]))
+        if line != want:
+            return "qhasharr(memory, %s) on a fresh region: `%s`, documented `%s`" % (w[1], line[:100], want)
+    elif w[0] == "memsize":
+        want = "memsize %d" % (HDR + SLOT * int(w[1]))
+        if line != want:
+            return "qhasharr_calculate_memsize(%s): `%s`, expected `%s`" % (w[1], line[:100], want)
     return None
 
 
@@ -331,9 +394,19 @@ def judge_c07(ops, lines):
             continue
         if line == "bad-op":
             return i, "harness rejected the operation line"
+        if op.split()[0] in ("ctor", "memsize"):
+            d = judge_standalone(op, line)
+            if d:
+                return i, d
+            continue
         p = parse_line(line)
         if not p.ok:
             return i, "unparsable result line: " + line[:200]
+        if op.split()[0] in ("inv", "next", "get", "sget", "getstr", "size", "walk") and have and (p.delta or p.hdr != (img.max, img.used, img.num)):
+            return i, "`%s` changed the image (header %s -> %s, %d slots rewritten)" % (
+                op[:40], (img.max, img.used, img.num), p.hdr, len(p.delta))
+        if op.split()[0] == "next" and int(op.split()[1]) < 0 and p.res != "end %d EINVAL" % int(op.split()[1]):
+            return i, "getnext with *idx = %s answered `%s` (documented: EINVAL, index untouched)" % (op.split()[1], p.res[:80])
         img.apply(p, op.startswith("init"))
         have = True
         if p.g != "111":
@@ -370,6 +443,11 @@ def judge_c06(ops, lines):
         kind = w[0]
         if line == "bad-op":
             return i, "harness rejected the operation line"
+        if kind in ("ctor", "memsize"):
+            d = judge_standalone(op, line)
+            if d:
+                return i, d
+            continue
         if kind == "init":
             ms = int(w[1])
             cap = (ms - HDR) // SLOT if ms > HDR else 0
@@ -386,15 +464,18 @@ def judge_c06(ops, lines):
         p = parse_line(line)
         if not p.ok:
             return i, "unparsable result line: " + line[:200]
-        before = img.keymap() if img.slots and kind in ("rmi", "walkrm") else None
+        before = img.keymap() if img.slots and kind in ("rmi", "walkrm", "next") else None
+        if kind == "inv" and (p.delta or p.hdr != (img.max, img.used, img.num)):
+            return i, "the invalid calls changed the image (header %s -> %s, %d slots rewritten)" % (
+                (img.max, img.used, img.num), p.hdr, len(p.delta))
         img.apply(p, kind == "init")
         res = p.res
         k = op_key(op)
         if k is not None and k not in keys:
             keys.append(k)
         m = ideal.m
-        if kind in ("put", "sput"):
-            v = unhex(w[2])
+        if kind in ("put", "sput", "putstr"):
+            v = unhex(w[2]) + (b"\0" if kind == "putstr" else b"")
             ck = canon(k)
             if len(k) == 0 or len(v) == 0:
                 if res != "false EINVAL":
@@ -424,7 +505,7 @@ def judge_c06(ops, lines):
                     m[ck] = (k[:NAMESIZE], v)
                 elif res != "false ENOBUFS":
                     return i, "put of a new key answered `%s` although need=%d > free=%d" % (res, need(len(v)), ideal.free())
-        elif kind in ("get", "sget"):
+        elif kind in ("get", "sget", "getstr"):
             ck = canon(k)
             want = "null EINVAL" if len(k) == 0 else ("data " + hexs(m[ck][1]) if ck in m else "null ENOENT")
             if res != want:
@@ -460,7 +541,26 @@ def judge_c06(ops, lines):
             if d:
                 return i, "walk: " + d
         elif kind == "next":
-            pass    # covered by the image comparison and by `walk`
+            idx = int(w[1])
+            if idx < 0:
+                want = "end %d EINVAL" % idx           # rejected, *idx untouched
+            else:
+                at = sorted((ix, ck) for ck, (ix, _) in before.items() if ix >= idx)
+                if at:
+                    ix, ck = at[0]
+                    if ck not in m:
+                        return i, "slot %d holds a key the ideal map does not contain" % ix
+                    want = "obj %d %s %s" % (ix + 1, hexs(m[ck][0]), hexs(m[ck][1]))
+                else:
+                    want = "end %d ENOENT" % max(idx, ideal.cap)
+            if res != want:
+                return i, "getnext with *idx = %d answered `%s`, expected `%s`" % (idx, res[:100], want[:100])
+        elif kind == "inv":
+            want = inv_expected(canon(unhex(w[1])) in m, len(m))
+            if res != want:
+                got, exp = dict(t.split("=") for t in res.split()[1:] if "=" in t), dict(t.split("=") for t in want.split()[1:])
+                bad = ["%s: %s (documented %s)" % (t, got.get(t), exp[t]) for t in INV_TOKENS if got.get(t) != exp[t]]
+                return i, "invalid-argument calls: " + ("; ".join(bad[:5]) if bad else res[-80:])
         elif kind == "walkrm":
             at = {ix: ck for ck, (ix, _) in before.items()}
             for t in res.split()[1:]:
@@ -516,6 +616,12 @@ def walk_mismatch(tokens, m):
 # ------------------------------------------------------------------ generators
 
 VAL_LENS = [1, 31, 32, 33, 97, 98, 99, 163, 164, 165, 230, 231]
+INT_MAX = 2147483647
+
+
+def OUT_IDX(cap):
+    """indexes outside the table"""
+    return [-1, -INT_MAX - 1, cap, cap + 1, INT_MAX]
 
 
 def mkval(rng, n):
@@ -597,9 +703,15 @@ def scenario_streams(rng, tier):
         for i in list(range(cap)) + [-1, cap, cap + 1, 2147483647, -2147483648]:
             ops.append("rmi %d" % i)
         ops.append("size")
+        ops.append(op_inv(ks[0]))            # empty table: every invalid call, the probe key is absent
         # refill with multi-slot values
         for k in ks[:cap]:
             ops.append(op_put(k, mkval(rng, rng.choice([33, 97, 98, 99, 164, 165]))))
+        # getnext from every index, inside and outside the table (negative: EINVAL, index untouched)
+        for i in list(range(cap)) + OUT_IDX(cap):
+            ops.append("next %d" % i)
+        ops.append(op_inv(ks[0]))            # (nearly) full table, the probe key is stored
+        ops.append(op_inv(b"not stored"))
         ops.append("walkrm 2 0")
         ops.append("walkrm 1 0")
         ops.append("clear")
@@ -609,7 +721,12 @@ def scenario_streams(rng, tier):
             ops.append(op_sget(k.replace(b"\0", b"x")))
         for k in ks[:2]:
             ops.append(op_srm(k.replace(b"\0", b"x")))
-        ops += [op_put(b"", b"x"), op_put(b"k", b""), op_get(b""), op_rm(b"")]
+        # putstr / getstr (key and value are C strings), replacing a value stored through put()
+        for k in ks[2:5]:
+            sk = k.replace(b"\0", b"x")
+            ops += [op_putstr(sk, b"s" * rng.choice([1, 31, 32, 40])), op_getstr(sk), op_sget(sk)]
+        ops += [op_putstr(b"", b""), op_getstr(b""), op_getstr(b"absent"), op_srm(b"")]
+        ops += [op_put(b"", b"x"), op_put(b"k", b""), op_get(b""), op_rm(b""), op_inv(b"k")]
         sts.append(Stream("scenario:cap%d" % cap, ops, history=True))
     # init boundaries
     ops = ["init %d" % ms for ms in (1, HDR, HDR + SLOT, HANDLE, HANDLE + 1, memsize(2) - 1, memsize(2), memsize(2) + 1, memsize(3) + 83)]
@@ -698,7 +815,9 @@ def random_history(rng, cap, nops, keys, val_lens, p_put=0.5):
         elif r < p_put + 0.45:
             ops.append("walk")
         elif r < p_put + 0.47:
-            ops.append("next %d" % rng.randrange(0, cap + 1))
+            ops.append("next %d" % (rng.randrange(0, cap + 1) if rng.random() < 0.7 else rng.choice(OUT_IDX(cap))))
+        elif r < p_put + 0.48:
+            ops.append(op_inv(k))
         else:
             ops.append("size")
     return ops
@@ -785,3 +904,75 @@ def bfs_streams(check, rng, cap, nkeys, val_lens, max_states, name):
         closed = True
     check.bfs_notes.append("%s: cap=%d keys=%d vals=%s: %d distinct images, %d levels, %s" % (
         name, cap, len(keys), list(val_lens), nstates, level, "closed (all reachable images)" if closed else "cut at the state bound"))
+
+
+# ------------------------------------------------------------------ glue: key lengths, constructor, argument validation
+
+def keylen_keys(api, L, tag):
+    """two keys of `namesize` L (as the code counts it: the string APIs include the NUL) that agree in their
+    first 16 bytes where the length allows it and differ in the last byte"""
+    n = L if api == "obj" else L - 1        # bytes the caller writes
+    if n == 0:
+        return [b""]                        # the empty string: namesize 1
+    body = (tag + b"0123456789abcdefghijklmnopqrstuvwxyz" * (n // 36 + 1))[:n]
+    return [body[:-1] + b"A", body[:-1] + b"B"]
+
+
+def keylen_ops(api, L, rng, tag):
+    put = {"obj": op_put, "str": op_sput, "putstr": op_putstr}[api]
+    get = {"obj": op_get, "str": op_sget, "putstr": op_getstr}[api]
+    rm = {"obj": op_rm, "str": op_srm, "putstr": op_srm}[api]
+    probe = (lambda k: op_inv(k)) if api == "obj" else (lambda k: op_inv(k + b"\0"))
+
+    def val(n):
+        return b"v" * n if api == "putstr" else mkval(rng, n)
+    ks = keylen_keys(api, L, tag)
+    k = ks[0]
+    ops = [put(k, val(1)), get(k)]
+    for k2 in ks[1:]:
+        ops += [get(k2), put(k2, val(33)), get(k2)]
+    ops += [get(k), put(k, val(40)), get(k), put(k, val(2)), get(k), "next 0", "walk", probe(k), rm(k), get(k), rm(k)]
+    for k2 in ks[1:]:
+        ops += [get(k2), "next 0", rm(k2)]
+    ops += ["size", probe(k)]
+    return ops
+
+
+def glue_streams(rng, tier):
+    """the systematic pass over the entry points' argument space: every key length 1..40 (and the 16-bit
+    limit) through each of the three put/get/remove families, the constructor for every region size up to
+    three slots, qhasharr_calculate_memsize, every documented-invalid call"""
+    sts = []
+    for api in ("obj", "str", "putstr"):
+        # 15, 16, 17 first (the inline-name limit), then every length
+        ops = [op_init(7)]
+        for L in [15, 16, 17] + list(range(1, 41)):
+            ops += keylen_ops(api, L, rng, b"%s%02d-" % (api[:1].encode(), L))
+        sts.append(Stream("keylen:%s" % api, ops, history=True))
+        ops = [op_init(5)]
+        for L in (65534, 65535):
+            ops += keylen_ops(api, L, rng, b"%s%d-" % (api[:1].encode(), L))
+        sts.append(Stream("keylen-16bit-limit:%s" % api, ops, history=True))
+        # 65536 and above: pair.namesize (16 bits) truncates, the key cannot be found again — outside the
+        # property's quantifier (DESIGN section 8): model/code correspondence and well-formedness only
+        ops = [op_init(5)]
+        for L in (65536, 65537):
+            ops += keylen_ops(api, L, rng, b"%s%d-" % (api[:1].encode(), L))
+        sts.append(Stream("keylen-beyond-16bit:%s" % api, ops, history=True, oracle=judge_c07))
+    # constructor: every region size from 0 to three slots + 1, on a guarded and on an exactly sized region
+    top = HDR + 3 * SLOT + 1
+    ops = []
+    for ms in range(0, top + 1):
+        ops += ["ctor %d" % ms, "ctor %d exact" % ms]
+    for ms in (memsize(1000), memsize(1000) + 83, 1 << 20):
+        ops += ["ctor %d" % ms]
+    for n in (0, 1, 2, 1000, INT_MAX):
+        ops.append("memsize %d" % n)
+    sts.append(Stream("ctor-sweep", ops, history=True))
+    # ... and the table is usable on every accepted size (slack bytes behind the last slot stay zero)
+    ops = []
+    for ms in range(1, top + 1):
+        ops += ["init %d" % ms, op_put(b"a", b"1"), op_sput(b"b", b"2" * 33), op_putstr(b"c", b"3"), op_put(b"d", b"4"),
+                "size", "next -1", op_inv(b"a")]
+    sts.append(Stream("init-sweep", ops, history=True))
+    return sts
